@@ -22,6 +22,7 @@ package ro
 
 //@ func (*publishSubjectImpl).NextWithContext
 //@   props C01 C02 C10 C13
+//@   ensures [one-critical-section|C10,C13] count(lock.mu) == 1
 //@   inline (*publishSubjectImpl).broadcastNext
 //@   track observers.* elem.* hook.* call.NewNotification*
 //@   ensures [open-broadcasts-to-all|C01,C10] atlock(status) == 0 ==> trace(observers.Range, elem.NextWithContext(ctx, value), observers.RangeEnd)
@@ -31,6 +32,7 @@ package ro
 
 //@ func (*publishSubjectImpl).ErrorWithContext
 //@   props C01 C02 C10 C13
+//@   ensures [one-critical-section|C10,C13] count(lock.mu) == 1
 //@   inline (*publishSubjectImpl).broadcastError (*publishSubjectImpl).unsubscribeAll
 //@   track observers.* elem.* hook.* call.NewNotification*
 //@   ensures [open-stores-broadcasts-clears|C01,C10] atlock(status) == 0 ==> atunlock(status) == 1 && atunlock(err).A == ctx && atunlock(err).B == err && trace(observers.Range, elem.ErrorWithContext(ctx, err), observers.RangeEnd, observers.Range, observers.Delete(_), observers.RangeEnd)
@@ -39,6 +41,7 @@ package ro
 
 //@ func (*publishSubjectImpl).CompleteWithContext
 //@   props C01 C02 C10 C13
+//@   ensures [one-critical-section|C10,C13] count(lock.mu) == 1
 //@   inline (*publishSubjectImpl).broadcastComplete (*publishSubjectImpl).unsubscribeAll
 //@   track observers.* elem.* hook.* call.NewNotification*
 //@   ensures [open-stores-broadcasts-clears|C01,C10] atlock(status) == 0 ==> atunlock(status) == 2 && trace(observers.Range, elem.CompleteWithContext(ctx), observers.RangeEnd, observers.Range, observers.Delete(_), observers.RangeEnd)
@@ -47,6 +50,7 @@ package ro
 
 //@ func (*publishSubjectImpl).SubscribeWithContext
 //@   props C01 C03 C10 C13
+//@   ensures [one-critical-section|C10,C13] count(lock.mu) == 1 && heldat(mu, sub.*) && heldat(mu, loop.*)
 //@   alias sub=NewSubscriber()
 //@   track call.NewSubscriber observers.* NewSubscriber().*
 //@   ensures [wraps-then-registers-when-open|C01,C10] atlock(status) == 0 ==> trace(call.NewSubscriber(destination), observers.Store(_, res(call.NewSubscriber)), sub.Add(_))
@@ -86,6 +90,7 @@ package ro
 
 //@ func (*behaviorSubjectImpl).NextWithContext
 //@   props C01 C02 C10 C13
+//@   ensures [one-critical-section|C10,C13] count(lock.mu) == 1
 //@   inline (*behaviorSubjectImpl).broadcastNext
 //@   track observers.* elem.* hook.* call.NewNotification*
 //@   ensures [open-stores-and-broadcasts|C01,C10] atlock(status) == 0 ==> atunlock(last).A == ctx && atunlock(last).B == value && trace(observers.Range, elem.NextWithContext(ctx, value), observers.RangeEnd)
@@ -95,6 +100,7 @@ package ro
 
 //@ func (*behaviorSubjectImpl).ErrorWithContext
 //@   props C01 C02 C10 C13
+//@   ensures [one-critical-section|C10,C13] count(lock.mu) == 1
 //@   inline (*behaviorSubjectImpl).broadcastError (*behaviorSubjectImpl).unsubscribeAll
 //@   track observers.* elem.* hook.* call.NewNotification*
 //@   ensures [open-stores-broadcasts-clears|C01,C10] atlock(status) == 0 ==> atunlock(status) == 1 && atunlock(err).A == ctx && atunlock(err).B == err && trace(observers.Range, elem.ErrorWithContext(ctx, err), observers.RangeEnd, observers.Range, observers.Delete(_), observers.RangeEnd)
@@ -103,6 +109,7 @@ package ro
 
 //@ func (*behaviorSubjectImpl).CompleteWithContext
 //@   props C01 C02 C10 C13
+//@   ensures [one-critical-section|C10,C13] count(lock.mu) == 1
 //@   inline (*behaviorSubjectImpl).broadcastComplete (*behaviorSubjectImpl).unsubscribeAll
 //@   track observers.* elem.* hook.* call.NewNotification*
 //@   ensures [open-stores-broadcasts-clears|C01,C10] atlock(status) == 0 ==> atunlock(status) == 2 && trace(observers.Range, elem.CompleteWithContext(ctx), observers.RangeEnd, observers.Range, observers.Delete(_), observers.RangeEnd)
@@ -111,6 +118,7 @@ package ro
 
 //@ func (*behaviorSubjectImpl).SubscribeWithContext
 //@   props C01 C03 C10 C13
+//@   ensures [one-critical-section|C10,C13] count(lock.mu) == 1 && heldat(mu, sub.*) && heldat(mu, loop.*)
 //@   alias sub=NewSubscriber()
 //@   track call.NewSubscriber observers.* NewSubscriber().*
 //@   ensures [open-replays-latest-then-registers|C01,C10] atlock(status) == 0 ==> trace(call.NewSubscriber(destination), sub.NextWithContext(atlock(last).A, atlock(last).B), observers.Store(_, res(call.NewSubscriber)), sub.Add(_))
@@ -150,6 +158,7 @@ package ro
 
 //@ func (*asyncSubjectImpl).NextWithContext
 //@   props C01 C02 C10 C13
+//@   ensures [one-critical-section|C10,C13] count(lock.mu) == 1
 //@   track observers.* elem.* hook.* call.NewNotification*
 //@   ensures [open-only-remembers|C01,C10] atlock(status) == 0 ==> atunlock(hasValue) == true && atunlock(value).A == ctx && atunlock(value).B == value && trace()
 //@   ensures [closed-drops|C01,C10] atlock(status) != 0 ==> trace(call.NewNotificationNext(value), hook.OnDroppedNotification(ctx, _))
@@ -157,6 +166,7 @@ package ro
 
 //@ func (*asyncSubjectImpl).ErrorWithContext
 //@   props C01 C02 C10 C13
+//@   ensures [one-critical-section|C10,C13] count(lock.mu) == 1
 //@   inline (*asyncSubjectImpl).broadcastError (*asyncSubjectImpl).unsubscribeAll
 //@   track observers.* elem.* hook.* call.NewNotification*
 //@   ensures [open-stores-broadcasts-clears|C01,C10] atlock(status) == 0 ==> atunlock(status) == 1 && atunlock(err).A == ctx && atunlock(err).B == err && trace(observers.Range, elem.ErrorWithContext(ctx, err), observers.RangeEnd, observers.Range, observers.Delete(_), observers.RangeEnd)
@@ -165,6 +175,7 @@ package ro
 
 //@ func (*asyncSubjectImpl).CompleteWithContext
 //@   props C01 C02 C10 C13
+//@   ensures [one-critical-section|C10,C13] count(lock.mu) == 1
 //@   inline (*asyncSubjectImpl).broadcastComplete (*asyncSubjectImpl).broadcastNext (*asyncSubjectImpl).unsubscribeAll
 //@   track observers.* elem.* hook.* call.NewNotification*
 //@   ensures [open-with-value-emits-it-then-completes|C01,C10] atlock(status) == 0 && atlock(hasValue) ==> atunlock(status) == 2 && trace(observers.Range, elem.NextWithContext(atlock(value).A, atlock(value).B), observers.RangeEnd, observers.Range, elem.CompleteWithContext(ctx), observers.RangeEnd, observers.Range, observers.Delete(_), observers.RangeEnd)
@@ -174,6 +185,7 @@ package ro
 
 //@ func (*asyncSubjectImpl).SubscribeWithContext
 //@   props C01 C03 C10 C13
+//@   ensures [one-critical-section|C10,C13] count(lock.mu) == 1 && heldat(mu, sub.*) && heldat(mu, loop.*)
 //@   alias sub=NewSubscriber()
 //@   track call.NewSubscriber observers.* NewSubscriber().*
 //@   ensures [wraps-then-registers-when-open|C01,C10] atlock(status) == 0 ==> trace(call.NewSubscriber(destination), observers.Store(_, res(call.NewSubscriber)), sub.Add(_))
@@ -215,6 +227,7 @@ package ro
 
 //@ func (*replaySubjectImpl).NextWithContext
 //@   props C01 C02 C10 C13
+//@   ensures [one-critical-section|C10,C13] count(lock.mu) == 1
 //@   requires s.bufferSize >= -1
 //@   inline (*replaySubjectImpl).broadcastNext
 //@   track observers.* elem.* hook.* call.NewNotification*
@@ -227,6 +240,7 @@ package ro
 
 //@ func (*replaySubjectImpl).ErrorWithContext
 //@   props C01 C02 C10 C13
+//@   ensures [one-critical-section|C10,C13] count(lock.mu) == 1
 //@   inline (*replaySubjectImpl).broadcastError (*replaySubjectImpl).unsubscribeAll
 //@   track observers.* elem.* hook.* call.NewNotification*
 //@   ensures [open-stores-broadcasts-clears|C01,C10] atlock(status) == 0 ==> atunlock(status) == 1 && atunlock(err).A == ctx && atunlock(err).B == err && trace(observers.Range, elem.ErrorWithContext(ctx, err), observers.RangeEnd, observers.Range, observers.Delete(_), observers.RangeEnd)
@@ -235,6 +249,7 @@ package ro
 
 //@ func (*replaySubjectImpl).CompleteWithContext
 //@   props C01 C02 C10 C13
+//@   ensures [one-critical-section|C10,C13] count(lock.mu) == 1
 //@   inline (*replaySubjectImpl).broadcastComplete (*replaySubjectImpl).unsubscribeAll
 //@   track observers.* elem.* hook.* call.NewNotification*
 //@   ensures [open-stores-broadcasts-clears|C01,C10] atlock(status) == 0 ==> atunlock(status) == 2 && trace(observers.Range, elem.CompleteWithContext(ctx), observers.RangeEnd, observers.Range, observers.Delete(_), observers.RangeEnd)
@@ -243,6 +258,7 @@ package ro
 
 //@ func (*replaySubjectImpl).SubscribeWithContext
 //@   props C01 C03 C10 C13
+//@   ensures [one-critical-section|C10,C13] count(lock.mu) == 1 && heldat(mu, sub.*) && heldat(mu, loop.*)
 //@   alias sub=NewSubscriber()
 //@   track call.NewSubscriber observers.* NewSubscriber().* loop.*
 //@   ensures [open-replays-buffer-then-registers|C01,C10] atlock(status) == 0 ==> trace(call.NewSubscriber(destination), loop.L0, observers.Store(_, res(call.NewSubscriber)), sub.Add(_))
@@ -286,6 +302,7 @@ package ro
 
 //@ func (*unicastSubjectImpl).NextWithContext
 //@   props C01 C02 C10 C13
+//@   ensures [one-critical-section|C10,C13] count(lock.mu) == 1
 //@   requires s.bufferSize >= -1
 //@   track observer.* hook.* call.NewNotification*
 //@   ensures [open-with-subscriber-delivers|C01,C10] atlock(status) == 0 && atlock(observer) != nil ==> trace(observer.NextWithContext(ctx, value)) && len(atunlock(values)) == len(atlock(values))
@@ -296,6 +313,7 @@ package ro
 
 //@ func (*unicastSubjectImpl).ErrorWithContext
 //@   props C01 C02 C10 C13
+//@   ensures [one-critical-section|C10,C13] count(lock.mu) == 1
 //@   track observer.* hook.* call.NewNotification*
 //@   ensures [open-stores-error|C01,C10] atlock(status) == 0 ==> atunlock(status) == 1 && atunlock(err).A == ctx && atunlock(err).B == err && atunlock(observer) == nil
 //@   ensures [open-with-subscriber-delivers|C01,C10] atlock(status) == 0 && atlock(observer) != nil ==> trace(observer.ErrorWithContext(ctx, err))
@@ -303,6 +321,7 @@ package ro
 
 //@ func (*unicastSubjectImpl).CompleteWithContext
 //@   props C01 C02 C10 C13
+//@   ensures [one-critical-section|C10,C13] count(lock.mu) == 1
 //@   track observer.* hook.* call.NewNotification*
 //@   ensures [open-stores-completion|C01,C10] atlock(status) == 0 ==> atunlock(status) == 2 && atunlock(observer) == nil
 //@   ensures [open-with-subscriber-delivers|C01,C10] atlock(status) == 0 && atlock(observer) != nil ==> trace(observer.CompleteWithContext(ctx))
@@ -310,6 +329,7 @@ package ro
 
 //@ func (*unicastSubjectImpl).SubscribeWithContext
 //@   props C01 C03 C10 C13
+//@   ensures [one-critical-section|C10,C13] count(lock.mu) == 1 && heldat(mu, sub.*) && heldat(mu, loop.*)
 //@   alias sub=NewSubscriber()
 //@   track call.NewSubscriber NewSubscriber().* loop.*
 //@   ensures [first-subscriber-gets-backlog-then-attached|C01,C10] atlock(status) == 0 && atlock(observer) == nil ==> trace(call.NewSubscriber(destination), loop.L0, sub.Add(_)) && atunlock(observer) == res(call.NewSubscriber) && len(atunlock(values)) == 0
